@@ -138,12 +138,28 @@ public:
 	}
 
 	EventQueueBase(const EventQueueBase & other)
-		: super(other)
+		:
+			super(other),
+			queueListConditionVariable(),
+			queueEmptyCounter(0),
+			queueNotifyCounter(0),
+			queueListMutex(),
+			queueList(),
+			freeListMutex(),
+			freeList()
 	{
 	}
 
 	EventQueueBase(EventQueueBase && other) noexcept
-		: super(std::move(other))
+		:
+			super(std::move(other)),
+			queueListConditionVariable(),
+			queueEmptyCounter(0),
+			queueNotifyCounter(0),
+			queueListMutex(),
+			queueList(),
+			freeListMutex(),
+			freeList()
 	{
 	}
 
